@@ -39,10 +39,10 @@ Close(x, y) == x[1] = y[1] /\ (IF x[1] = 1 THEN Abs(x[2] - y[2]) <= 1 ELSE x[2] 
 Src(f) ==
   CASE f = "selected_altitude" -> {"selected_altitude", "selected_mcp", "selected_fms"}
     [] f = "vertical_rate" -> {"vertical_rate", "vrate_inertial", "vrate_barometric"}
-    [] f = "ias" -> {"IAS"}
-    [] f = "tas" -> {"TAS"}
-    [] f = "mach" -> {"Mach"}
-    [] f = "nacp" -> {"NACp"}
+    [] f = "ias" -> {"IAS", "ias"}
+    [] f = "tas" -> {"TAS", "tas"}
+    [] f = "mach" -> {"Mach", "mach"}
+    [] f = "nacp" -> {"NACp", "nacp"}
     [] OTHER -> {f}
 (* Design level: the key from which a record of kind k feeds field f.       *)
 DKey(k, f) ==
